@@ -30,7 +30,8 @@ EXPLANATION = (
     'and max with min (P2) and rebuilds bias/heights by first differences; '
     'Dykstra roll-back bookkeeping is paired per key (L4).  The affine '
     'identities of the bound projection (L2) are decided under C08.'
-    ' Also decided: each bound of NaiveBoundsConstraints is clipped under its own guard (K3); in all 72 (monotonicity, convexity, min kind, max kind) configurations the strictly finalised kernel depends on every configured bound (K4, influence analysis through the negate-and-swap recursion); convexity group g is projected whenever g + 2 heights exist (T2).')
+    ' Also decided: each bound of NaiveBoundsConstraints is clipped under its own guard (K3); in all 72 (monotonicity, convexity, min kind, max kind) configurations the strictly finalised kernel depends on every configured bound (K4, influence analysis through the negate-and-swap recursion); convexity group g is projected whenever g + 2 heights exist (T2).'
+    ' Nothing that is used later is computed from a value before the statement that clips that value (X5, self-clip order).')
 ASSUMPTIONS = ['tf.maximum/minimum/cumsum/concat semantics',
                'Keras re-applies the constraint after each update']
 
